@@ -21,6 +21,7 @@ ASSUMPTIONS = ['the punctuation inventories are the documented ones, written '
                'its parent" refer to the constituent the token is in '
                'afterwards']
 WATCHDOG = {'quick': 600, 'thorough': 3600}
+LONG_SENTENCES = 3      # floor for the stratum the runner adds (gen.maybe_long)
 MIN = {'quick': {'distinct': 1500,
                  'hooks': {'transform.punctuation_verylow': 2000,
                            'transform.punctuation_root': 2000,
@@ -233,6 +234,7 @@ def punct_tree(rng):
                       pos=gen.POS + ['PRELS', 'PRELS', 'PRELSAT', 'PRELSAT'])
     n = rng.choice([2, 3, 4, 5, 6, 8, 12]) if rng.random() < 0.7 \
         else rng.randint(1, 30)
+    n = gen.maybe_long(rng, n, 0.003)
     spec = gen.tree(rng, n, pools, max_arity=rng.choice([2, 3, 4, 6]),
                     p_unary=rng.choice([0, 0.15, 0.35]),
                     moves=rng.choice([0, 0, 0, 1, 2]),
